@@ -128,10 +128,11 @@ func (t *TokenBucketFilter) run() {
 
 			return
 		case chunk := <-t.c:
-			if time.Since(lastRefill) > t.minRefillDuration {
-				t.refillTokens(time.Since(lastRefill))
-				lastRefill = time.Now()
-			}
+			// Credit the time since the last refill before every drain, so the
+			// bucket is capped at the burst size before tokens are spent.
+			now := time.Now()
+			t.refillTokens(now.Sub(lastRefill))
+			lastRefill = now
 			t.queue.push(chunk)
 			t.drainQueue()
 		}
@@ -141,7 +142,7 @@ func (t *TokenBucketFilter) run() {
 func (t *TokenBucketFilter) refillTokens(dt time.Duration) {
 	t.mutex.Lock()
 	defer t.mutex.Unlock()
-	m := 1000.0 / float64(dt.Milliseconds())
+	m := 1.0 / dt.Seconds()
 	add := (float64(t.rate) / m) / 8.0
 	t.currentTokensInBucket = math.Min(float64(t.maxBurst), t.currentTokensInBucket+add)
 	t.log.Tracef(
